@@ -17,7 +17,7 @@
    client/engine; totality), non-vacuity on a real 14-ply game position: coq/TeiClientExamples.v.  Theorems C17_client_* below. *)
 From Coq Require Import NArith ZArith List Bool String.
 Require Import Board Move GameOver PtnMove Playtak Tps TeiBudget Tei TeiSpec TeiFacts TeiTotal TeiExamples.
-Require TeiClient TeiClientFacts TeiClientFacts2 TeiClientFacts3 TeiClientExamples Preserve1 TpsFacts5 TpsFacts6 PreserveEx Generated.Consts.
+Require TeiClient TeiClientFacts TeiClientFacts2 TeiClientFacts3 TeiClientFacts4 TeiClientExamples Preserve1 TpsFacts5 TpsFacts6 PreserveEx Generated.Consts.
 Import ListNotations.
 
 (* The thinking time: for all clock values representable in time.Duration (int64 ns), strictly less than the remaining
@@ -200,6 +200,28 @@ Theorem C17_client_go_refused : forall (dl : option Z) (tc : option TeiClient.tc
                               TeiClientFacts2.sayable (TeiClient.tc_winc t) /\ TeiClientFacts2.sayable (TeiClient.tc_binc t)).
 Proof. exact TeiClientFacts2.go_words_none. Qed.
 Print Assumptions C17_client_go_refused.
+
+(* The budget clause from the client's side: the thinking time the engine allots for the client's go line (go_limit = calcBudget of
+   what it parsed) is strictly less than the CLIENT's clock of the side to move (when that clock is positive) and never more than
+   the time left until the CLIENT's deadline, when that is at least 1 ms ... *)
+Theorem C17_client_budget_within_clock :
+  forall (dl : option Z) (tc : option TeiClient.tctl) (ws : list (list N)) (white : bool),
+  (forall d, dl = Some d -> TeiClientFacts2.int64 d) -> (forall t, tc = Some t -> TeiClientFacts2.tc_int64 t) ->
+  TeiClient.go_words dl tc = Some ws ->
+  exists a, parse_go (tl ws) targs0 = Some a /\
+    forall b, go_limit white a = Some b ->
+      (forall t, tc = Some t -> let tm := if white then TeiClient.tc_white t else TeiClient.tc_black t in (0 < tm)%Z -> (b < tm)%Z) /\
+      (forall d, dl = Some d -> (1000000 <= d)%Z -> (b <= d)%Z).
+Proof. exact TeiClientFacts4.client_budget_within_clock. Qed.
+Print Assumptions C17_client_budget_within_clock.
+
+(* ... but a deadline less than 1 ms ahead, or already passed, is sent as `movetime 0`, which the engine reads as NO per-move time:
+   with no clocks the search gets no time limit at all (recorded behaviour of client + engine; see the final report of build3-client). *)
+Theorem C17_client_deadline_below_1ms_uncapped :
+  forall (d : Z) (white : bool), TeiClientFacts2.int64 d -> (d < 1000000)%Z ->
+  exists ws a, TeiClient.go_words (Some d) None = Some ws /\ parse_go (tl ws) targs0 = Some a /\ movetime a = 0%Z /\ go_limit white a = None.
+Proof. exact TeiClientFacts4.client_deadline_below_1ms_uncapped. Qed.
+Print Assumptions C17_client_deadline_below_1ms_uncapped.
 
 (* Composition.  A client in step with a running engine model (nothing unread in the pipe; sizes of the engine agree) calls
    NewGame(size p) and TEIGetMove(p) - p live, on the hypotheses of C10's exact round trip; deadline and clocks int64 values that
